@@ -36,6 +36,7 @@ type runner struct {
 	joined  []map[int]int64
 	redel   []map[int]bool
 	book    []map[int]*stakeBook
+	conf    []map[string]bool // the monitor's own record of accepted confirms: "kind/nonce/ext"
 }
 
 func newRunner(seed int64, modules []string, rep *lib.Report) *runner {
@@ -49,6 +50,7 @@ func newRunner(seed int64, modules []string, rep *lib.Report) *runner {
 		r.joined = append(r.joined, map[int]int64{})
 		r.redel = append(r.redel, map[int]bool{})
 		r.book = append(r.book, map[int]*stakeBook{})
+		r.conf = append(r.conf, map[string]bool{})
 		m.view0 = v.coq()
 		m.vals0 = coqDeleg(v.Vals)
 		m.initArg = fmt.Sprintf("%d %d %d %s %d %s %d", v.Height, int64(r.w.c.Ctx.BlockTime().Sub(lib.GenesisTime).Seconds()),
@@ -131,10 +133,14 @@ func (r *runner) do(op Op) (class int) {
 				}
 			case "unbond":
 				delete(r.book[a.mod], op.A)
+			case "confirm":
+				r.conf[a.mod][fmt.Sprintf("%s/%d/%d", op.Obj, op.N, op.E)] = true
 			}
 		}
 		var vio []violation
-		vio = append(vio, checkStep(op, a.class, r.pre[a.mod], post, r.joined[a.mod], r.redel[a.mod])...)
+		vio = append(vio, checkStep(op, a.class, r.pre[a.mod], post, r.joined[a.mod], r.redel[a.mod], func(kind string, nonce int64, ext int) bool {
+			return r.conf[a.mod][fmt.Sprintf("%s/%d/%d", kind, nonce, ext)]
+		})...)
 		vio = append(vio, checkState(post, r.readded[a.mod], r.book[a.mod])...)
 		for _, v := range vio {
 			key := fmt.Sprintf("%s/%d/%s", v.sig, a.mod, strings.SplitN(v.what, ":", 2)[0])
@@ -226,7 +232,8 @@ func main() {
 		for i, sc := range scripted() {
 			b, _ := json.MarshalIndent(History{Seed: 1000 + int64(i), Modules: []string{"eth", "bsc"}, Ops: sc}, "", " ")
 			name := []string{"A-C13-1-withdraw-after-maturity", "B-C13-1-withdraw-before-maturity", "C-C13-2-add-delegate-after-removal",
-				"D-validator-slashed-then-redelegate-removal-withdraw"}[i]
+				"D-validator-slashed-then-redelegate-removal-withdraw", "E-two-live-batches-older-executed",
+				"F-export-import-with-offline-oracles"}[i]
 			lib.Must(os.WriteFile(filepath.Join(corpusDir, name+".json"), b, 0o644))
 		}
 	}
@@ -388,5 +395,30 @@ func scripted() [][]Op {
 	d = append(d, Op{K: "add", M: 0, A: 6, Amt: fx(500)}, // oracle 6 is on validator 0: new shares at the new rate
 		Op{K: "slashval", M: 0, V: 2, Amt: "100000000000000"}, Op{K: "block", Dt: mature}, Op{K: "block"},
 		Op{K: "unbond", M: 0, A: 0}, Op{K: "unbond", M: 0, A: 0}, Op{K: "gov", M: 0, L: []int{1, 2, 4, 5, 6}}, Op{K: "block"})
-	return [][]Op{a, b, c, d}
+	// E: two live batches of one token; everybody confirms both; the older one is executed on the external chain and the
+	//    event observed through the real claim path; the window of the newer one elapses: nobody may be penalised
+	e := setup()
+	e = append(e, confirmAll(1, -1)...)
+	confirmBatch := func(n int64) []Op {
+		var ops []Op
+		for a := 0; a < nOracles; a++ {
+			ops = append(ops, Op{K: "confirm", M: 0, Obj: "batch", N: n, B: 100 + a, E: 200 + a})
+		}
+		return ops
+	}
+	e = append(e, Op{K: "addbatch", M: 0}, Op{K: "block"}, Op{K: "addbatch", M: 0})
+	e = append(e, confirmBatch(1)...)
+	e = append(e, confirmBatch(2)...)
+	e = append(e, Op{K: "execbatch", M: 0, N: 1}, Op{K: "block"}, Op{K: "block"}, Op{K: "block"}, Op{K: "block"}, Op{K: "block"})
+	// F: oracle 3 does not sign and is taken offline, oracle 0 is removed by governance; the chain is restarted from
+	//    exported state; afterwards oracle 0 withdraws its matured stake and oracle 3 pays its penalty and returns
+	f := setup()
+	f = append(f, confirmAll(1, 3)...)
+	f = append(f, Op{K: "block"}, Op{K: "block"}, Op{K: "block"})
+	f = append(f, confirmAll(2, 3)...)
+	f = append(f, Op{K: "gov", M: 0, L: []int{1, 2, 3, 4, 5, 6}}, Op{K: "block"})
+	f = append(f, confirmAll(3, 3)...)
+	f = append(f, Op{K: "exportimport", M: 0}, Op{K: "block", Dt: mature}, Op{K: "block"},
+		Op{K: "unbond", M: 0, A: 0}, Op{K: "add", M: 0, A: 3, Amt: fx(9000)}, Op{K: "block"})
+	return [][]Op{a, b, c, d, e, f}
 }
